@@ -68,6 +68,12 @@ def plan(seed, subbatch):
     else:
         start = world.pick_start(cfg, base_s, tf_s)
         where = "ordinary_day"
+        if sub_rng(seed, "epoch").random() < 0.12:
+            # across 1970-01-01: the stream covers the hours in which the panel zones' local epoch instants lie
+            target = sub_rng(seed, "epoch-at").randint(-14 * 3600, 14 * 3600)
+            start = target - int(sub_rng(seed, "epoch-frac").random() * n * base_s)
+            start -= start % base_s
+            where = "epoch"
     if subbatch == "calm":
         faults, burst, p_empty = {}, None, 0.0
         switches = 0
